@@ -110,7 +110,7 @@ class Stats:
             dig = case_digest(case)
             if dig not in self.nontrivial:
                 self.nontrivial.add(dig)
-                if len(self.samples) < 2:
+                if len(self.samples) < 2 and len(json.dumps(case, default=str)) < 20000:
                     self.samples.append(dict(case=case, observed=res.sample))
         bad = []
         for v in res.violations:
